@@ -74,7 +74,7 @@ func driverAlphabet(bases []Case) []string {
 func editTokens(r *rand.Rand, toks []string, alpha []string, bases []Case) []string {
 	t := append([]string(nil), toks...)
 	pick := func() string { return alpha[r.Intn(len(alpha))] }
-	switch op := r.Intn(7); {
+	switch op := r.Intn(8); {
 	case len(t) == 0 || op == 0: // insert
 		i := r.Intn(len(t) + 1)
 		t = append(t[:i], append([]string{pick()}, t[i:]...)...)
@@ -103,11 +103,16 @@ func editTokens(r *rand.Rand, toks []string, alpha []string, bases []Case) []str
 			i := r.Intn(len(t) + 1)
 			t = append(t[:i], append(append([]string(nil), o[a:b]...), t[i:]...)...)
 		}
+	case op == 6 && r.Intn(2) == 0: // replace by a boundary-flavoured token
+		t[r.Intn(len(t))] = boundaryTokens[r.Intn(len(boundaryTokens))]
 	default: // replace by any token
 		t[r.Intn(len(t))] = pick()
 	}
 	return t
 }
+
+var boundaryTokens = []string{"n0", "nM32", "nP32", "nM63", "nP63", "n20d", "sStar", "s1toStar", "s0", "sOverR", "sBig", "litNoNum",
+	"litNoCRLF", "litOver", "litPlus", "Nlp_1001", "Nlp_999", "Nmp_1001", "NIL", "qEmpty", "lit0"}
 
 func min(a, b int) int {
 	if a < b {
